@@ -1,0 +1,44 @@
+//go:build verif
+
+// Verification contracts (comments only; compiled only with -tags verif).
+// Checked by /verif/bin/govc; see /verif/DESIGN.md.
+
+package standard
+
+//@ type Service
+//@   guarded_by blockRootToSlotMu: blockRootToSlot
+//@   guarded_by executionChainHeadMu: executionChainHeadRoot, executionChainHeadHeight
+//@
+//@ spec func headerSlot(root phase0.Root) phase0.Slot
+//@ spec func epochNow() phase0.Epoch
+//@ spec func firstSlotOf(e phase0.Epoch) phase0.Slot
+//@
+//@ func (*Service).BlockRootToSlot
+//@   requires s != nil && s.blockRootToSlot != nil && s.beaconBlockHeadersProvider != nil
+//@   requires unheld(s.blockRootToSlotMu)
+//@   assumes call BeaconBlockHeader#1 (resp, err): err == nil ==> resp != nil && resp.Data != nil && resp.Data.Header != nil && resp.Data.Header.Message != nil && resp.Data.Header.Message.Slot == headerSlot(root)
+//@   ensures result1 == nil ==> result0 == (in(old(s.blockRootToSlot), root) ? old(s.blockRootToSlot)[root] : headerSlot(root))
+//@   ensures result1 == nil ==> in(s.blockRootToSlot, root) && s.blockRootToSlot[root] == result0
+//@   ensures !in(old(s.blockRootToSlot), root) && calls(BeaconBlockHeader) == 0 ==> result1 != nil
+//@   ensures in(old(s.blockRootToSlot), root) ==> result1 == nil
+//@   ensures forall r phase0.Root :: r != root ==> (in(s.blockRootToSlot, r) <==> in(old(s.blockRootToSlot), r)) && s.blockRootToSlot[r] == old(s.blockRootToSlot[r])
+//@   modifies contents(s.blockRootToSlot)
+//@
+//@ func (*Service).SetBlockRootToSlot
+//@   requires s != nil && s.blockRootToSlot != nil && unheld(s.blockRootToSlotMu)
+//@   ensures in(s.blockRootToSlot, root) && s.blockRootToSlot[root] == slot
+//@   ensures forall r phase0.Root :: r != root ==> (in(s.blockRootToSlot, r) <==> in(old(s.blockRootToSlot), r)) && s.blockRootToSlot[r] == old(s.blockRootToSlot[r])
+//@   modifies contents(s.blockRootToSlot)
+//@
+//@ func (*Service).cleanBlockRootToSlot
+//@   requires s != nil && s.chainTime != nil && unheld(s.blockRootToSlotMu)
+//@   assumes call CurrentEpoch (e): e == epochNow()
+//@   assumes call FirstSlotOfEpoch (fs): fs == firstSlotOf(arg0)
+//@   loop 1
+//@     invariant forall r phase0.Root :: in(s.blockRootToSlot, r) ==> in(old(s.blockRootToSlot), r) && s.blockRootToSlot[r] == old(s.blockRootToSlot[r])
+//@     invariant forall r phase0.Root :: in(old(s.blockRootToSlot), r) && old(s.blockRootToSlot[r]) >= minSlot ==> in(s.blockRootToSlot, r)
+//@     invariant forall r phase0.Root :: visited(r) && old(s.blockRootToSlot[r]) < minSlot ==> !in(s.blockRootToSlot, r)
+//@   ensures epochNow() <= 64 ==> forall r phase0.Root :: in(s.blockRootToSlot, r) <==> in(old(s.blockRootToSlot), r)
+//@   ensures epochNow() > 64 ==> forall r phase0.Root :: in(s.blockRootToSlot, r) <==> (in(old(s.blockRootToSlot), r) && old(s.blockRootToSlot[r]) >= firstSlotOf(epochNow() - 64))
+//@   ensures forall r phase0.Root :: in(s.blockRootToSlot, r) ==> s.blockRootToSlot[r] == old(s.blockRootToSlot[r])
+//@   modifies contents(s.blockRootToSlot)
